@@ -5,11 +5,14 @@
    Lang/Scope.v (C++ block scoping over the IR of the statement translator Lang/Transl.v).
    Lang/Headers.v (library includes vs. instantiated library classes), Lang/FnSelect.v (which
    specialisations of the user functions are emitted, and their C++ parameter lists).
+   Lang/EmitScope.v (C++ block scoping of function bodies: one declaration per name and scope; the block structure of the
+   text _emit_block produces for every IR node kind).
    The C++ type checker is not modelled: it is g++ itself, run by harness/props/c06.py. *)
 From Coq Require Import ZArith List Bool Sorting.Sorted.
 From RV Require Import Base.Wire Base.Text Lang.Escape Lang.Sections Proofs.EscapeP Proofs.SectionsP.
 From RV Require Import Lang.StmtAst Lang.Transl Lang.Scope Proofs.ScopeP.
 From RV Require Lang.Headers Proofs.HeadersP Lang.FnSelect Proofs.FnSelectP.
+From RV Require Lang.EmitScope Proofs.EmitScopeP Lang.Globals Proofs.GlobalsP.
 Import ListNotations.
 Open Scope Z_scope.
 
@@ -325,3 +328,109 @@ Example C06_fn_select_nonvacuous :
   (forall n s, In (n, s) (FnSelect.select FnSelect.demo_fns) -> forallb FnSelect.known s = true).
 Proof. exact FnSelectP.demo_select. Qed.
 Print Assumptions C06_fn_select_nonvacuous.
+
+(* ---------------------------------------------------------------- every identifier declared ONCE in its scope *)
+
+Module ES := EmitScope.
+
+(* the scope stack is compositional: a function body is scanned statement by statement *)
+Theorem C06_scope_compositional : forall (stk : list (list ES.cname)) (a b : list ES.tok),
+  ES.scan stk (a ++ b) = match ES.scan stk a with Some s => ES.scan s b | None => None end.
+Proof. exact EmitScopeP.scan_app. Qed.
+Print Assumptions C06_scope_compositional.
+
+(* text that leaves every scope stack as it found it can stand anywhere, any number of times *)
+Theorem C06_closed_segment_invisible : forall seg : list ES.tok,
+  (forall stk, stk <> [] -> ES.scan stk seg = Some stk) ->
+  forall stk a b, stk <> [] -> ES.scan stk (a ++ seg ++ b) = ES.scan stk (a ++ b).
+Proof. exact EmitScopeP.closed_segment_invisible. Qed.
+Print Assumptions C06_closed_segment_invisible.
+
+(* EVERY device-call template of _emit_block (Servo, DCMotor, Led, RGBLed, Buzzer calls with literal or run-time arguments,
+   optional arguments present or not, every LCD call but glyph, device declarations, plain statements) is such a text -
+   in every state of the emitter and inside any enclosing scopes: its helper locals live in a block of its own *)
+Theorem C06_device_call_closed : forall (st : ES.est) (n : ES.node), ES.is_template n = true ->
+  forall top u, ES.scan (top :: u) (snd (ES.emit_node st n)) = Some (top :: u).
+Proof. exact EmitScopeP.template_closed. Qed.
+Print Assumptions C06_device_call_closed.
+
+(* hence any sequence of device calls - the same call twice, any two calls that share a helper local - in one block is
+   free of redeclaration *)
+Theorem C06_device_calls_any_sequence : forall (l : list ES.node) (st : ES.est) (stk : list (list ES.cname)),
+  stk <> [] -> forallb ES.is_template l = true -> ES.scan stk (snd (ES.emit_block st l)) = Some stk.
+Proof. exact EmitScopeP.templates_block. Qed.
+Print Assumptions C06_device_calls_any_sequence.
+
+(* a whole function body (setup, loop, a user function with its parameters) of ANY shape - device calls, local
+   declarations, nested if / while / for / try blocks, button polls, LCD glyphs (whose array names carry a counter that only
+   grows) - has no name declared twice in one scope, PROVIDED the declarations the script itself causes (local variables,
+   for variables, catch targets, parameters, one poll per button) have none (guard: the parser's bookkeeping, not modelled
+   here; Lang/Scope.v says where they are declared, g++ checks the rest) *)
+Theorem C06_emit_no_redeclaration_partial : forall (st : ES.est) (params : list text) (l : list ES.node),
+  ES.fn_ok (map ES.CUser params) (ES.user_proj st l) = true ->
+  ES.fn_ok (map ES.CUser params) (snd (ES.emit_block st l)) = true.
+Proof. exact EmitScopeP.emit_fn_ok. Qed.
+Print Assumptions C06_emit_no_redeclaration_partial.
+
+(* the same inside any enclosing scopes (a block in the middle of a function), with the invariant that carries it *)
+Theorem C06_emit_simulates : forall (l : list ES.node) (st : ES.est) (stk : list (list ES.cname)) (btns : list text) us',
+  stk <> [] -> EmitScopeP.glyph_bounded st stk -> btns = ES.e_buttons st ->
+  ES.scan (EmitScopeP.uview stk) (flat_map (EmitScopeP.user_tok_b btns) l) = Some us' ->
+  exists stk', ES.scan stk (snd (ES.emit_block st l)) = Some stk' /\ EmitScopeP.uview stk' = us' /\
+               EmitScopeP.glyph_bounded (fst (ES.emit_block st l)) stk'.
+Proof. exact EmitScopeP.emit_simulates. Qed.
+Print Assumptions C06_emit_simulates.
+
+(* the report of the harness oracle is sound: well-scoped text is never blamed *)
+Theorem C06_first_redecl_sound : forall (l : list ES.tok) stk s, ES.scan stk l = Some s -> ES.first_redecl stk l = None.
+Proof. exact EmitScopeP.first_redecl_sound. Qed.
+Print Assumptions C06_first_redecl_sound.
+
+Theorem C06_cnodup_meaning : forall l : list ES.cname, ES.cnodup l = true <-> NoDup l.
+Proof. exact EmitScopeP.cnodup_NoDup. Qed.
+Print Assumptions C06_cnodup_meaning.
+
+(* non-vacuity: a block with a button poll, two inverts, two glyphs of one LCD, a for loop with a local and two device calls,
+   a local of the same name after the loop, a beep - 51 tokens, well scoped; the glyph arrays are ..._1 and ..._2 *)
+Example C06_emit_scope_nonvacuous :
+  ES.fn_ok [] (ES.user_proj ES.demo_state ES.demo_block) = true /\
+  ES.fn_ok [] (snd (ES.emit_block ES.demo_state ES.demo_block)) = true /\
+  List.length (snd (ES.emit_block ES.demo_state ES.demo_block)) = 51%nat /\
+  map ES.render (flat_map (fun t => match t with ES.TDecl (ES.CGlyph l k) => [ES.CGlyph l k] | _ => [] end)
+                          (snd (ES.emit_block ES.demo_state ES.demo_block)))
+    = ES.demo_glyph_names.
+Proof. exact EmitScopeP.demo_ok. Qed.
+Print Assumptions C06_emit_scope_nonvacuous.
+
+(* the anonymous block matters: with DCMotorInvert's drive code emitted unwrapped, ONE invert() is still fine (it leaves its
+   four locals in the enclosing scope), two in one block redeclare __redu_speed; the real template does not *)
+Example C06_unwrapped_invert_breaks :
+  ES.scan [[]] (snd (ES.emit_block_with ES.emit_node_unwrapped_invert ES.demo_state [ES.NMotorInvert])) =
+    Some [ES.drive_scope] /\
+  ES.scan [[]] (snd (ES.emit_block_with ES.emit_node_unwrapped_invert ES.demo_state [ES.NMotorInvert; ES.NPlain; ES.NMotorInvert])) = None /\
+  option_map ES.render (ES.first_redecl [[]] (snd (ES.emit_block_with ES.emit_node_unwrapped_invert ES.demo_state [ES.NMotorInvert; ES.NPlain; ES.NMotorInvert]))) = Some ES.name_redu_speed /\
+  ES.scan [[]] (snd (ES.emit_block ES.demo_state [ES.NMotorInvert; ES.NPlain; ES.NMotorInvert])) = Some [[]].
+Proof. exact EmitScopeP.unwrapped_invert_breaks. Qed.
+Print Assumptions C06_unwrapped_invert_breaks.
+
+(* ---------------------------------------------------------------- file-scope definitions of the device state *)
+
+(* emit() adds a global line only if the very same text is not there yet.  When every name is always offered with the same
+   initialiser (guard: a device name is not bound twice with different constructor arguments), no name is defined twice and
+   every offered line is there *)
+Theorem C06_globals_once_partial : forall ls : list Globals.gline,
+  Globals.consistent ls = true ->
+  NoDup (map fst (Globals.globals ls)) /\ (forall l, In l ls -> In l (Globals.globals ls)).
+Proof. exact (fun ls C => conj (GlobalsP.globals_nodup ls C) (GlobalsP.globals_complete ls C)). Qed.
+Print Assumptions C06_globals_once_partial.
+
+(* without the guard it is false:  arm = Servo(9) ; arm = Servo(10, min_angle=10)  offers  float __servo_min_angle_arm  twice
+   with different initialisers - both lines are kept (g++: redefinition) *)
+Theorem C06_globals_once_refuted : exists ls : list Globals.gline, ~ NoDup (map fst (Globals.globals ls)).
+Proof. exact GlobalsP.globals_refuted. Qed.
+Print Assumptions C06_globals_once_refuted.
+
+Example C06_globals_rebound_servo :
+  Globals.globals Globals.rebound_servo = [(1, 0); (2, 180); (1, 10)] /\ Globals.consistent Globals.rebound_servo = false.
+Proof. exact GlobalsP.rebound_servo_lines. Qed.
+Print Assumptions C06_globals_rebound_servo.
